@@ -18,6 +18,8 @@ pub enum ST {
     Str(usize),
     List(Vec<ST>),
     Improper(Vec<ST>, Box<ST>),
+    /// a compound term / pattern: tag 0 = tuple `(a, b)`, 1 = `P3(a, b, c)`, 2 = `Named { a: x, b: y }`
+    Comp(usize, Vec<ST>),
 }
 
 #[derive(Clone, Debug, PartialEq)]
@@ -31,6 +33,9 @@ pub enum SG {
     Op(&'static str, Vec<Vec<SG>>),
     Fresh(Vec<String>, Vec<SG>),
     Closure(Vec<SG>),
+    /// ONE closure goal value used twice in a row: `{ let g = proto_vulcan_closure!(..); proto_vulcan!([g.clone(), g]) }` —
+    /// documented meaning: the conjunction of two invocations, each with its own fresh variables (seeded change C15-g)
+    Twice(Vec<SG>),
     Call(&'static str, Vec<ST>),
     /// match / matche / matcha / matchu: arms of (alternative patterns, body, body written in braces `=> { a, b }`
     /// — a list of clauses — rather than as one clause `=> g` / `=> [a, b]`)
@@ -50,6 +55,9 @@ impl ST {
             ST::Str(i) => format!("\"{}\"", crate::term::STRINGS[*i]),
             ST::List(v) => format!("[{}]", v.iter().map(|x| x.print()).collect::<Vec<_>>().join(", ")),
             ST::Improper(v, t) => format!("[{} | {}]", v.iter().map(|x| x.print()).collect::<Vec<_>>().join(", "), t.print()),
+            ST::Comp(0, a) => format!("({})", a.iter().map(|x| x.print()).collect::<Vec<_>>().join(", ")),
+            ST::Comp(1, a) => format!("P3({})", a.iter().map(|x| x.print()).collect::<Vec<_>>().join(", ")),
+            ST::Comp(_, a) => format!("Named {{ a: {}, b: {} }}", a[0].print(), a[1].print()),
         }
     }
     /// variable names in order of first occurrence (patterns: the set the macro collects)
@@ -65,6 +73,7 @@ impl ST {
                 v.iter().for_each(|x| x.names(out));
                 t.names(out)
             }
+            ST::Comp(_, a) => a.iter().for_each(|x| x.names(out)),
             _ => {}
         }
     }
@@ -73,6 +82,7 @@ impl ST {
             ST::Var(n) if n == from => ST::Var(to.to_string()),
             ST::List(v) => ST::List(v.iter().map(|x| x.rename(from, to)).collect()),
             ST::Improper(v, t) => ST::Improper(v.iter().map(|x| x.rename(from, to)).collect(), Box::new(t.rename(from, to))),
+            ST::Comp(g, a) => ST::Comp(*g, a.iter().map(|x| x.rename(from, to)).collect()),
             o => o.clone(),
         }
     }
@@ -80,7 +90,10 @@ impl ST {
 
 fn clause(gs: &[SG]) -> String {
     // a clause inside an operator / match arm: a single goal, or a bracketed conjunction
-    if gs.len() == 1 {
+    // (a clause holding ONE goal that is itself a bracketed conjunction keeps its own brackets — `[[a, b]]`, `[[]]` —
+    // or the macro would read the conjunction's goals as the goals of the clause: for conda/condu the head of the clause
+    // would change, and an empty conjunction would become an empty clause)
+    if gs.len() == 1 && !matches!(gs[0], SG::Conj(_)) {
         gs[0].print()
     } else {
         format!("[{}]", gs.iter().map(|g| g.print()).collect::<Vec<_>>().join(", "))
@@ -99,6 +112,10 @@ impl SG {
             SG::Fresh(ns, gs) => format!("|{}| {{ {} }}", ns.join(", "), gs.iter().map(|g| g.print()).collect::<Vec<_>>().join(", ")),
             // (the macro parses ONE clause inside `closure { }`: several goals are written as a conjunction)
             SG::Closure(gs) => format!("closure {{ {} }}", clause(gs)),
+            SG::Twice(gs) => format!(
+                "{{ let c__: InferredGoal<DU, DE, Goal<DU, DE>> = proto_vulcan_closure!({}); let g__: Goal<DU, DE> = ::proto_vulcan::GoalCast::cast_into(c__); let r__: InferredGoal<DU, DE, Goal<DU, DE>> = proto_vulcan!([g__.clone(), g__]); r__ }}",
+                clause(gs)
+            ),
             SG::Call(r, a) => format!("{}({})", r, a.iter().map(|x| x.print()).collect::<Vec<_>>().join(", ")),
             SG::Match(kind, t, arms) => {
                 let arms: Vec<String> = arms
@@ -165,6 +182,7 @@ impl SG {
             SG::Conj(gs) => SG::Conj(gs.iter().map(|g| g.alpha(counter, target, fresh)).collect()),
             SG::Op(n, cs) => SG::Op(n, cs.iter().map(|c| c.iter().map(|g| g.alpha(counter, target, fresh)).collect()).collect()),
             SG::Closure(gs) => SG::Closure(gs.iter().map(|g| g.alpha(counter, target, fresh)).collect()),
+            SG::Twice(gs) => SG::Twice(gs.iter().map(|g| g.alpha(counter, target, fresh)).collect()),
             SG::For(x, c, body) => {
                 let (mut x2, mut b2) = (x.clone(), body.clone());
                 if *counter == target {
@@ -194,6 +212,7 @@ impl SG {
                 }
             }
             SG::Closure(gs) => SG::Closure(rg(gs)),
+            SG::Twice(gs) => SG::Twice(rg(gs)),
             SG::Call(r, a) => SG::Call(r, a.iter().map(|x| x.rename(from, to)).collect()),
             SG::Match(kind, t, arms) => SG::Match(
                 kind,
@@ -258,6 +277,7 @@ impl Elab {
                 let tl = self.term(tl);
                 T::improper(es, tl)
             }
+            ST::Comp(g, a) => T::Comp(*g, a.iter().map(|x| self.term(x)).collect()),
         }
     }
     fn goals(&mut self, gs: &[SG]) -> Vec<PG> {
@@ -304,6 +324,20 @@ impl Elab {
                 } else {
                     PG::Closure(vec![PG::Conj(b)])
                 }
+            }
+            SG::Twice(gs) => {
+                // two invocations: the body is elaborated twice, so its binders get different variables
+                let one = |e: &mut Self| {
+                    let b = e.goals(gs);
+                    if b.len() == 1 {
+                        PG::Closure(b)
+                    } else {
+                        PG::Closure(vec![PG::Conj(b)])
+                    }
+                };
+                let a = one(self);
+                let b = one(self);
+                PG::Conj(vec![a, b])
             }
             SG::Call(r, a) => {
                 let a: Vec<T> = a.iter().map(|x| self.term(x)).collect();
@@ -383,6 +417,7 @@ fn subst_term(t: &ST, x: &str, e: &ST) -> ST {
         ST::Var(n) if n == x => e.clone(),
         ST::List(v) => ST::List(v.iter().map(|y| subst_term(y, x, e)).collect()),
         ST::Improper(v, tl) => ST::Improper(v.iter().map(|y| subst_term(y, x, e)).collect(), Box::new(subst_term(tl, x, e))),
+        ST::Comp(g, a) => ST::Comp(*g, a.iter().map(|y| subst_term(y, x, e)).collect()),
         o => o.clone(),
     }
 }
@@ -402,6 +437,7 @@ fn subst_goal(g: &SG, x: &str, e: &ST) -> SG {
             }
         }
         SG::Closure(gs) => SG::Closure(sg(gs)),
+        SG::Twice(gs) => SG::Twice(sg(gs)),
         SG::Call(r, a) => SG::Call(r, a.iter().map(|y| subst_term(y, x, e)).collect()),
         SG::Match(k, t, arms) => SG::Match(
             k,
@@ -463,6 +499,8 @@ fn lean_term(t: &ST, ns: &mut Names, out: &mut String) -> bool {
             }
             out.push_str("nil ");
         }
+        // compound terms are outside the Lean surface model (the elaborated program still goes through the engine model)
+        ST::Comp(..) => return false,
         ST::Improper(v, tl) => {
             for x in v {
                 out.push_str("cons ");
@@ -673,6 +711,43 @@ impl SurfGen {
     fn name(&self, r: &mut Rng) -> String {
         r.pick(&self.names).to_string()
     }
+    /// an operand of `==` / `!=` / `match`, or a whole pattern: a term, or — one time in five — a COMPOUND: a tuple `(a, b)`
+    /// (terms only), the tuple-like struct `P3(a, b, c)`, the struct with named fields `Named { a: x, b: y }` (patterns
+    /// only: the macro's operand grammar needs a path prefix for a braced constructor).  The macro accepts compounds as
+    /// operands, as patterns and as arguments of compounds, not inside list literals.
+    pub fn operand(&self, r: &mut Rng, scope: &[String], depth: usize, pattern: bool) -> ST {
+        if depth > 0 && r.chance(1, 5) {
+            let tag = if pattern { 1 + r.below(2) } else { r.below(2) };
+            let ar = if tag == 1 { 3 } else { 2 };
+            // arguments: variables, `_`, literals and proper lists of those (what the macro's compound-argument grammar takes
+            // in every position: no nested compound, no `|` tail)
+            let arg = |r: &mut Rng| -> ST {
+                let leaf = |r: &mut Rng| -> ST {
+                    match r.below(6) {
+                        0 | 1 => {
+                            if pattern {
+                                ST::Var(self.name(r))
+                            } else if scope.is_empty() {
+                                ST::Num(1)
+                            } else {
+                                ST::Var(r.pick(scope).clone())
+                            }
+                        }
+                        2 => ST::Any,
+                        3 => ST::List(vec![]),
+                        _ => ST::Num(r.range(1, 3) as isize),
+                    }
+                };
+                if r.chance(1, 4) {
+                    ST::List((0..1 + r.below(2)).map(|_| leaf(r)).collect())
+                } else {
+                    leaf(r)
+                }
+            };
+            return ST::Comp(tag, (0..ar).map(|_| arg(r)).collect());
+        }
+        self.term(r, scope, depth, pattern)
+    }
     pub fn term(&self, r: &mut Rng, scope: &[String], depth: usize, pattern: bool) -> ST {
         let leaf = |r: &mut Rng| -> ST {
             match r.below(10) {
@@ -747,8 +822,8 @@ impl SurfGen {
                 return SG::Fresh(vec!["tz".to_string()], gs);
             }
             // mostly `variable == small term` (satisfiable), sometimes two arbitrary terms
-            let a = if r.chance(5, 6) && !scope.is_empty() { ST::Var(r.pick(scope).clone()) } else { self.term(r, scope, 2, false) };
-            let b = if r.chance(3, 4) { self.term(r, scope, 1, false) } else { self.term(r, scope, 2, false) };
+            let a = if r.chance(5, 6) && !scope.is_empty() { ST::Var(r.pick(scope).clone()) } else { self.operand(r, scope, 2, false) };
+            let b = if r.chance(3, 4) { self.operand(r, scope, 1, false) } else { self.operand(r, scope, 2, false) };
             let (a, b) = if r.chance(1, 2) { (a, b) } else { (b, a) };
             if r.chance(3, 4) {
                 SG::Eq(a, b)
@@ -803,6 +878,7 @@ impl SurfGen {
 
     pub fn match_goal(&self, r: &mut Rng, scope: &mut Vec<String>, depth: usize, kinds: &Kinds) -> SG {
         let kind = if kinds.committed { *r.pick(&["match", "matche", "matcha", "matchu"]) } else { *r.pick(&["match", "matche"]) };
+        // (the matched term is a tree term: the macro takes no compound constructor there)
         let t = if r.chance(3, 4) { ST::Var(r.pick(scope).clone()) } else { self.term(r, scope, 1, false) };
         let narms = 1 + r.below(3);
         let mut arms = vec![];
@@ -812,7 +888,7 @@ impl SurfGen {
             for _ in 0..nalts {
                 // an arm whose WHOLE pattern is `_` (it matches anything: in matcha/matchu the match itself is the
                 // committed-choice test of the arm, whatever its body does — seeded change C13-f)
-                ps.push(if r.chance(1, 5) { ST::Any } else { self.term(r, scope, 2, true) });
+                ps.push(if r.chance(1, 5) { ST::Any } else { self.operand(r, scope, 2, true) });
             }
             // with alternatives every pattern must bind the names the body uses: bodies of multi-alternative
             // arms mention only the names common to all alternatives (the macro expands the body per alternative)
